@@ -321,6 +321,9 @@ class StridedInterval:
                 f"{self.bits:x} {self.lower_bound:x} {self.upper_bound:x} {self.stride:x}",
                 self._reversed,
                 self.uninitialized,
+                # the empty interval has the bounds and stride of TOP; == on intervals answers with an (always truthy)
+                # BoolResult, so two members of a set with equal hashes count as the same member
+                self._is_bottom,
             )
         )
 
